@@ -7,10 +7,24 @@
 //!
 //! Case payload: `<authors>|<op>;<op>;...|<step> <step> ...`
 //!   author 0 is the node itself, 1.. are external authors (fresh keys)
-//!   op = `a,t,seq,bl,p,b,c`: claimed author, topic the extensions are built from, seq, backlink
-//!        (`n` | `o<j>` header hash of op j | `b<k>` bogus), prune flag as found in the header,
-//!        has body, corruption (0 none, 1 signed by an unrelated key, 2 prune flag flipped after
-//!        signing, 5 signature removed)
+//!   op = `a,t,seq,bl,p,b,c[,src]`: claimed author, topic the extensions are built from, seq,
+//!        backlink (`n` | `o<j>` header hash of op j | `b<k>` bogus), prune flag as found in the
+//!        header, has body, corruption:
+//!          forged (the header is not what the claimed author signed):
+//!            1 signed by an unrelated key, 2 prune flag flipped after signing, 5 signature removed
+//!          authentic (signed by the claimed author's key) but rejected by `validate_operation`:
+//!            3 delivered with a body the header does not commit to (other bytes, other length)
+//!            4 header version 2
+//!            6 header claims no payload (size 0, no hash) but a body is attached
+//!            7 header carries a payload hash with payload size 0 (no body attached)
+//!            8 delivered with other body bytes of the *same* length (size matches, hash does not)
+//!            9 header commits to the right payload hash but a size off by one
+//!          0 none -- such an operation can still be rejected by the log-integrity rules (fork:
+//!            sequence number at or below the latest stored entry, wrong backlink) or by
+//!            `validate_header` (seq > 0 without backlink, seq 0 with backlink)
+//!        src (optional): index of an earlier op whose signed *header* is reused unchanged
+//!            (a, t, seq, bl, p are then those of the source); b = deliver it with the body the
+//!            header commits to (1) or without body (0); c = 0, or 3 (a different body attached)
 //!   step = `i<t>:<j>` import op j through the stream of topic t
 //!        | `p<t>:<prune>:<body>` publish (prune=1: `StreamPublisher::prune`) on topic t
 //!        | `r<t>` drop the stream of topic t and re-open it with `StreamFrom::Start` (replay)
@@ -64,8 +78,21 @@ fn spawn_drain(mut rx: StreamSubscription<String>) -> mpsc::UnboundedReceiver<Ev
 }
 
 async fn open(node: &Node, topic: Topic, from: StreamFrom) -> Stream {
-    let (tx, rx) = node.stream_from::<String>(topic, from).await.expect("stream");
-    Stream { tx, events: spawn_drain(rx) }
+    // Under heavy machine load the first request to a freshly spawned node can fail
+    // ("channel is closed"); opening a stream has no effect on the store, so it is retried.
+    let mut attempt = 0;
+    loop {
+        match node.stream_from::<String>(topic, from.clone()).await {
+            Ok((tx, rx)) => return Stream { tx, events: spawn_drain(rx) },
+            Err(err) => {
+                attempt += 1;
+                if attempt >= 20 {
+                    panic!("stream: {err}");
+                }
+                tokio::time::sleep(Duration::from_millis(250)).await;
+            }
+        }
+    }
 }
 
 /// Import a batch of operations through a stream; returns whether any of them failed processing.
@@ -88,9 +115,27 @@ async fn import(s: &mut Stream, ops: Vec<Operation>) -> bool {
     failed
 }
 
+/// Body the header of op `idx` commits to (a CBOR string, so that accepted operations decode).
+fn true_body(idx: usize) -> Body {
+    Body::new(&encode_cbor(&format!("message {idx}")).unwrap())
+}
+
 fn build(idx: usize, def: &str, keys: &[SigningKey], topics: &[Topic], built: &[Operation]) -> Operation {
     let f: Vec<&str> = def.split(',').collect();
-    assert!(f.len() == 7, "op definition needs 7 fields");
+    assert!(f.len() == 7 || f.len() == 8, "op definition needs 7 or 8 fields");
+    if f.len() == 8 {
+        // The signed header of an earlier operation, unchanged, with or without (or with another) body.
+        let src: usize = f[7].parse().unwrap();
+        let header = built[src].header.clone();
+        let body = match (f[5], f[6]) {
+            (_, "3") => Some(Body::new(&encode_cbor(&format!("another body {idx}")).unwrap())),
+            // python resolves chains of copies: src is always an op built from scratch
+            ("1", "0") => header.payload_hash.map(|_| true_body(src)),
+            ("0", "0") => None,
+            _ => panic!("src copy: c must be 0 or 3"),
+        };
+        return Operation { hash: header.hash(), header, body };
+    }
     let a: usize = f[0].parse().unwrap();
     let t: usize = f[1].parse().unwrap();
     let seq: SeqNum = f[2].parse().unwrap();
@@ -103,18 +148,24 @@ fn build(idx: usize, def: &str, keys: &[SigningKey], topics: &[Topic], built: &[
     let prune = f[4] == "1";
     let has_body = f[5] == "1";
     let c: u32 = f[6].parse().unwrap();
-    let body = if has_body {
-        Some(Body::new(&encode_cbor(&format!("message {idx}")).unwrap()))
+    assert!(matches!(c, 0 | 1 | 2 | 3 | 4 | 5 | 6 | 7 | 8 | 9), "unknown corruption {c}");
+    // What the header commits to.
+    let committed = if (has_body && c != 6) || matches!(c, 3 | 7 | 8 | 9) {
+        Some(true_body(idx))
     } else {
         None
     };
     let signed_flag = if c == 2 { !prune } else { prune };
     let mut header = Header {
-        version: 1,
+        version: if c == 4 { 2 } else { 1 },
         verifying_key: keys[a].verifying_key(),
         signature: None,
-        payload_size: body.as_ref().map(|b| b.size()).unwrap_or(0),
-        payload_hash: body.as_ref().map(|b| b.hash()),
+        payload_size: match c {
+            7 => 0,
+            9 => committed.as_ref().unwrap().size() + 1,
+            _ => committed.as_ref().map(|b| b.size()).unwrap_or(0),
+        },
+        payload_hash: committed.as_ref().map(|b| b.hash()),
         seq_num: seq,
         backlink,
         extensions: Extensions::from_topic(topics[t]).set_prune_flag(signed_flag),
@@ -128,6 +179,20 @@ fn build(idx: usize, def: &str, keys: &[SigningKey], topics: &[Topic], built: &[
         5 => header.signature = None,
         _ => {}
     }
+    // What is delivered next to the header.
+    let body = match c {
+        3 => Some(Body::new(&encode_cbor(&format!("another body {idx}")).unwrap())),
+        6 => Some(true_body(idx)),
+        7 => None,
+        8 => {
+            // same length as the committed body, other bytes ("message" -> "massage")
+            let b = Body::new(&encode_cbor(&format!("massage {idx}")).unwrap());
+            assert!(b.size() == committed.as_ref().unwrap().size());
+            Some(b)
+        }
+        9 => committed.clone(),
+        _ => if has_body { committed.clone() } else { None },
+    };
     Operation { hash: header.hash(), header, body }
 }
 
